@@ -577,6 +577,43 @@ VF_INL void SN(_mm_storeu_si128)(SN(__m128i)* p, SN(__m128i) a) {
   q[0] = a.q[0];
   q[1] = a.q[1];
 }
+/* lane-width conversions and blends a plausible change could introduce.  _mm256_castsi128_si256 leaves the upper half undefined in the ISA; the shim
+ * zeroes it (what gcc/clang generate) - code whose result depends on it is wrong anyway and is compared natively by the replay */
+VF_INL SN(__m256i) SN(_mm256_castsi128_si256)(SN(__m128i) a) {
+  SN(__m256i) r;
+  r.q[0] = a.q[0];
+  r.q[1] = a.q[1];
+  r.q[2] = 0;
+  r.q[3] = 0;
+  return r;
+}
+VF_INL SN(__m128i) SN(_mm256_castsi256_si128)(SN(__m256i) a) {
+  SN(__m128i) r;
+  r.q[0] = a.q[0];
+  r.q[1] = a.q[1];
+  return r;
+}
+VF_INL SN(__m128i) SN(_mm256_extracti128_si256)(SN(__m256i) a, int imm) {
+  SN(__m128i) r;
+  r.q[0] = a.q[(imm & 1) ? 2 : 0];
+  r.q[1] = a.q[(imm & 1) ? 3 : 1];
+  return r;
+}
+VF_INL SN(__m256i) SN(_mm256_inserti128_si256)(SN(__m256i) a, SN(__m128i) b, int imm) {
+  SN(__m256i) r = a;
+  r.q[(imm & 1) ? 2 : 0] = b.q[0];
+  r.q[(imm & 1) ? 3 : 1] = b.q[1];
+  return r;
+}
+VF_INL SN(__m256i) SN(_mm256_blend_epi32)(SN(__m256i) a, SN(__m256i) b, int imm) {
+  SN(__m256i) r;
+  for (int i = 0; i < 4; ++i) {
+    uint64_t lo = ((imm >> (2 * i)) & 1) ? (b.q[i] & 0xffffffffULL) : (a.q[i] & 0xffffffffULL);
+    uint64_t hi = ((imm >> (2 * i + 1)) & 1) ? (b.q[i] >> 32) : (a.q[i] >> 32);
+    r.q[i] = lo | (hi << 32);
+  }
+  return r;
+}
 VF_INL SN(__m128i) SN(_mm_set1_epi64x)(long long x) {
   SN(__m128i) r;
   r.q[0] = (uint64_t)x;
